@@ -594,7 +594,8 @@ def run_check(pid, cfg, tier, seed, replay):
                     found = j2.failing[0]; break
         if found is not None:
             small = shrink(area, pid, found, shr, True)
-            p = write_replay(pid, "failing-input", "found by the search after a disagreement: " + str(small["verdict"].get("why", "")), seed, tier, [small])
+            p = write_replay(pid, "failing-input", "found by the search after a disagreement: " + str(small["verdict"].get("why", "")), seed, tier, [small],
+                             {"disagreeing_lines": judge.disagree[:3], "proof_broken": proof_broken, "harness_fail": harness_fail})
             violations.append((p, ""))
         else:
             what = proof_broken or harness_fail or "the implementation left the model (agree=false) although the property's predicate still holds on every explored input"
